@@ -32,7 +32,7 @@ CALL_KINDS = ["stat", "chmod", "rename", "link", "unlink", "mkdir", "readdir", "
               "fchmod", "dstat", "copy", "read"]
 SYSCALLS = {"stat": ["statx", "newfstatat", "stat", "lstat"], "chmod": ["chmod", "fchmodat"], "rename": ["rename", "renameat", "renameat2"],
             "link": ["link", "linkat"], "unlink": ["unlink", "unlinkat"], "mkdir": ["mkdir", "mkdirat"], "open": ["openat", "open"],
-            "fsync": ["fsync", "fdatasync"], "utimes": ["utimensat"], "futimes": ["utimensat"], "fchmod": ["fchmod"], "fstat": ["statx", "fstat", "newfstatat"],
+            "fsync": ["fsync", "fdatasync"], "utimes": ["utimensat", "openat"], "futimes": ["utimensat"], "fchmod": ["fchmod"], "fstat": ["statx", "fstat", "newfstatat"],
             "readdir": ["getdents64"], "dstat": ["statx", "newfstatat"], "mktemp": ["openat"], "copy": ["copy_file_range", "sendfile", "write"], "read": ["read"]}
 NONE = 255
 
@@ -171,6 +171,7 @@ class Native:
 
     def materialise(self, root, scen, override=None):
         """Create the directory tree of the scenario under root."""
+        set_time_map(scen)
         for d in scen["dirs"]:
             os.makedirs(os.path.join(root, d["path"]), exist_ok=True)
         done = {}
@@ -212,12 +213,36 @@ class Native:
         return res
 
 
+TIME_MAP = {}
+
+
+def set_time_map(scen):
+    """The solver is free to pick timestamps up to 2^40 s, which real filesystems clamp.  Replays use an
+    order-preserving compression of every timestamp of the scenario into the recent past (one hour
+    apart per distinct second), keeping nanoseconds; ordering is what the crate's logic depends on."""
+    TIME_MAP.clear()
+    secs = set()
+    for f in scen.get("files", []):
+        secs.update([f.get("at_s", 0), f.get("mt_s", 0)])
+    for e in scen.get("env", []):
+        f = e.get("file") or {}
+        secs.update([f.get("at_s", 0), f.get("mt_s", 0)])
+    secs.add((scen.get("config") or {}).get("now_s") or 0)
+    base = int(time.time()) - 3600 * (len(secs) + 48)
+    for i, v in enumerate(sorted(secs)):
+        TIME_MAP[v] = base + 3600 * i
+
+
+def tmap(sec):
+    return TIME_MAP.get(sec, max(0, sec))
+
+
 def write_file(path, f):
     with open(path, "wb") as fh:
         fh.write(b"value-%d" % f.get("content", 0))
     os.chmod(path, f.get("mode", 0o444) & 0o777)
-    at = max(0, f.get("at_s", 0)) * 10**9 + f.get("at_ns", 0)
-    mt = max(0, f.get("mt_s", 0)) * 10**9 + f.get("mt_ns", 0)
+    at = tmap(f.get("at_s", 0)) * 10**9 + f.get("at_ns", 0)
+    mt = tmap(f.get("mt_s", 0)) * 10**9 + f.get("mt_ns", 0)
     os.utime(path, ns=(at, mt))
 
 
@@ -233,7 +258,12 @@ def snapshot(root):
                      atime_ns=st.st_atime_ns, nlink=st.st_nlink)
             if e["kind"] == "file":
                 try:
-                    e["content"] = open(p, "rb").read(200).decode(errors="replace")
+                    # O_NOATIME: observing the tree must not set read marks
+                    fd = os.open(p, os.O_RDONLY | os.O_NOATIME)
+                    try:
+                        e["content"] = os.read(fd, 200).decode(errors="replace")
+                    finally:
+                        os.close(fd)
                 except OSError as ex:
                     e["content"] = "<%s>" % ex
             snap[rel] = e
@@ -689,7 +719,7 @@ def align_calls(scen, calls, begin):
     for c in scen["calls"]:
         names = SYSCALLS.get(c["kind"], [])
         k = j
-        while k < len(calls) and not (calls[k][0] in names and "kvreplay-marker" not in calls[k][1]):
+        while k < len(calls) and not (calls[k][0] in names and "kvreplay-marker" not in calls[k][1] and "EFAULT" not in calls[k][1]):
             k += 1
         if k >= len(calls):
             break
@@ -716,16 +746,18 @@ def apply_env_action(root, e):
         os.rename(tmp, path)
     elif e["action"] == "restamp" and os.path.exists(path):
         f = e.get("file", {})
-        os.utime(path, ns=(max(0, f.get("at_s", 0)) * 10**9 + f.get("at_ns", 0), max(0, f.get("mt_s", 0)) * 10**9 + f.get("mt_ns", 0)))
+        os.utime(path, ns=(tmap(f.get("at_s", 0)) * 10**9 + f.get("at_ns", 0), tmap(f.get("mt_s", 0)) * 10**9 + f.get("mt_ns", 0)))
 
 
-def run_with_env(scen, nat, profile, action):
+def run_with_env(scen, nat, profile, action, pre_actions=()):
     """Run the scenario's operation natively, holding the process right before its call number
     `action.before_call` (strace delivers SIGSTOP when the preceding system call returns) while the
     driver performs the peer's step.  -> observation dict, or None when the point cannot be located."""
     root0 = nat.sandbox()
     try:
         nat.materialise(root0, scen)
+        for pa in pre_actions:
+            apply_env_action(root0, pa)
         args0 = op_args(scen, root0)
         if args0 is None:
             return None
@@ -745,6 +777,8 @@ def run_with_env(scen, nat, profile, action):
     root = nat.sandbox()
     try:
         nat.materialise(root, scen)
+        for pa in pre_actions:
+            apply_env_action(root, pa)
         args = op_args(scen, root)
         before = snapshot(root)
         slog = tempfile.mktemp(prefix="kvr-strace-")
@@ -753,21 +787,20 @@ def run_with_env(scen, nat, profile, action):
         p = subprocess.Popen(cmd, stdout=subprocess.PIPE, stderr=subprocess.PIPE)
         stopped = False
         t0 = time.time()
-        while time.time() - t0 < 20 and p.poll() is None:
-            kids = subprocess.run(["pgrep", "-P", str(p.pid)], stdout=subprocess.PIPE).stdout.decode().split()
-            for kpid in kids:
-                try:
-                    st = open("/proc/%s/stat" % kpid).read().split()[2]
-                except OSError:
-                    continue
-                if st in ("t", "T"):
-                    apply_env_action(root, action)
-                    os.kill(int(kpid), 18)  # SIGCONT
-                    stopped = True
-                    break
-            if stopped:
+        while time.time() - t0 < 30 and p.poll() is None:
+            try:
+                txt = open(slog, errors="replace").read()
+            except OSError:
+                txt = ""
+            m = re.search(r"^(\d+)\s+--- stopped by SIGSTOP ---", txt, re.M)
+            if m:
+                apply_env_action(root, action)
+                os.kill(int(m.group(1)), 18)  # SIGCONT
+                stopped = True
                 break
             time.sleep(0.02)
+        if not stopped and p.poll() is None:
+            p.kill()
         out, _err = p.communicate(timeout=60)
         after = snapshot(root)
         lines = open(slog, errors="replace").read().splitlines() if os.path.exists(slog) else []
@@ -779,26 +812,50 @@ def run_with_env(scen, nat, profile, action):
         shutil.rmtree(root, ignore_errors=True)
 
 
+def env_plan(scen):
+    """Peer steps that precede our first call are part of the initial state; the latest later step
+    is performed while the process is held (earlier later steps are folded into the initial state:
+    an approximation - if it does not reproduce, the replay is reported as not reproduced)."""
+    env = scen.get("env") or []
+    if not env:
+        return None, []
+    first = min([c["n"] for c in scen["calls"]] or [1])
+    later = [e for e in env if e["before_call"] > first]
+    if not later:
+        return None, env
+    last_n = max(e["before_call"] for e in later)
+    held = [e for e in later if e["before_call"] == last_n]
+    pre = [e for e in env if e not in held]
+    return held, pre
+
+
 def o_env_no_error(scen, nat, msg):
-    """C05/C06: with the scenario's peer step performed at the scenario's instant, the operation must still succeed."""
-    if not scen.get("env"):
+    """C05/C06: with the scenario's peer steps performed at the scenario's instants, the operation must still succeed."""
+    held, pre = env_plan(scen)
+    if held is None and not pre:
         return None
-    bad = {}
+    hits = []
     tried = []
-    for action in reversed(scen["env"]):
-        hits = []
-        for profile in ("debug", "release"):
-            r = run_with_env(scen, nat, profile, action)
-            if r is None or not r["stopped"]:
-                continue
-            tried.append((action["action"], action["path"], action["before_call"], r["out"]["result"]))
-            if r["out"]["result"] != "ok" or r["out"]["panic"]:
-                hits.append((profile, "peer %s of %s right before our call #%d (after %s): result %s kind=%s %s" % (
-                    action["action"], action["path"], action["before_call"], r["stop_after"], r["out"]["result"], r["out"]["kind"], r["out"]["panic"] or "")))
-        if len(hits) >= 2:
-            return dict(reproduced=True, detail="; ".join("%s: %s" % h for h in hits),
-                        signature=dict(op=scen["op"]["code"], what="operation fails under a concurrent %s" % action["action"]))
-    return dict(reproduced=False, detail="operation succeeded natively under each recorded peer step: %r" % (tried,),
+    for profile in ("debug", "release"):
+        if held is None:
+            r = run_scenario(scen, nat, profile, tweak=lambda root: [apply_env_action(root, e) for e in pre])
+            where = "peer steps before our first call"
+        else:
+            # several peer steps at the same instant: perform them all while the process is held
+            act = dict(held[0])
+            r = run_with_env(scen, nat, profile, act, pre_actions=pre + held[1:])
+            where = "peer %s of %s right before our call #%d" % (act["action"], act["path"], act["before_call"])
+            if r is not None and not r["stopped"]:
+                r = None
+        if r is None:
+            continue
+        tried.append((profile, where, r["out"]["result"]))
+        if r["out"]["result"] != "ok" or r["out"]["panic"]:
+            hits.append((profile, "%s: result %s kind=%s %s" % (where, r["out"]["result"], r["out"]["kind"], r["out"]["panic"] or "")))
+    if len(hits) >= 2:
+        return dict(reproduced=True, detail="; ".join("%s: %s" % h for h in hits),
+                    signature=dict(op=scen["op"]["code"], what="operation fails under concurrent activity"))
+    return dict(reproduced=False, detail="operation succeeded natively under the recorded peer steps: %r" % (tried,),
                 signature=dict(op=scen["op"]["code"], what="operation fails under concurrent activity"))
 
 
